@@ -31,6 +31,7 @@ def main():
         return 2
 
     notes = []
+    core.collect_notes(pid)   # drop remarks left by an interrupted run
     broken = []          # proof obligations / builds that no longer check
     violations = []      # concrete failing inputs
     table_info = {}
@@ -122,6 +123,7 @@ def main():
         except gen_tables.TranslatorError as e:
             if not any(b.get("theorem") == "translator(" + e.table + ")" for b in broken):
                 broken.append({"file": "harness/gen_tables.py", "theorem": "translator(" + e.table + ")", "message": str(e)})
+    notes += core.collect_notes(pid)
     for name, msg in sorted(gen_tables.STALE.items()):
         notes.append(f"table {name}: the live source is no longer recognised by the translator ({msg}); generators and model ran on "
                      "the snapshot of the last successful translation while searching for a failing input")
